@@ -49,10 +49,14 @@ FAMILIES = {
     "step_other": ["step_other_char"],               # ~25 s
     "state": ["state_token_pass", "state_token_comment", "state_token_nl", "state_space",
               "state_flush"],                        # symbolic one-step summaries
-    "state_order": _ORDER,                           # enumerated content/order, 2-3 min each
+    "state_order": _ORDER,                           # enumerated content/order: 42 harnesses,
+                                                     # 3-6 min and 3-6.5 GB each (22 min at 8 jobs)
+    # subset of state_order (lowest, a non-multiple-of-4 and highest cur_indent): ~6 min at 8 jobs
+    "state_order_quick": (["state_order_pass_c%02d_k%d" % (c, k) for c in (1, 6, 13) for k in (0, 1, 2)]
+                          + ["state_order_comment_c06"]),
     "table": ["table_concrete_to_python", "table_as_op_or_id", "table_long_names"],
 }
-ALL = [h for fam in FAMILIES.values() for h in fam]
+ALL = [h for f, fam in FAMILIES.items() if f != "state_order_quick" for h in fam]
 
 #: extra `cargo kani` arguments by harness-name pattern (appended last: --cbmc-args eats the rest)
 HARNESS_ARGS = [
@@ -71,8 +75,13 @@ def scratch():
     global _scratch_dir
     with _lock:
         if _scratch_dir is None:
-            base = os.environ.get("TMPDIR") or "/var/tmp"
-            _scratch_dir = os.path.join(base, "kani-td-%d" % os.getpid())
+            fixed = os.environ.get("VERIF_KANI_DIR")
+            if fixed:
+                # persistent build cache (cargo decides what to rebuild from /repo's current sources)
+                _scratch_dir = fixed
+            else:
+                base = os.environ.get("TMPDIR") or "/var/tmp"
+                _scratch_dir = os.path.join(base, "kani-td-%d" % os.getpid())
             os.makedirs(os.path.join(_scratch_dir, "logs"), exist_ok=True)
         return _scratch_dir
 
